@@ -308,6 +308,9 @@ func init() {
 		return "OK"
 	}
 	outcomeOracle := func(c *Case, impl string) *Viol {
+		if want, ok := implOnlyWant[c.Req]; ok && !strings.HasPrefix(impl, want) {
+			return &Viol{Key: "nested-template-tag-mode:" + c.Note, What: "a {template} tag inside a template body: the nested body is not rendered in the tag's mode (else the enclosing one), or the enclosing mode is not restored after it", Want: want}
+		}
 		// COMPILE-ERR: Compile itself returned an error value (a normal return)
 		if strings.HasPrefix(impl, "OK ") || strings.HasPrefix(impl, "ERR") || impl == "OK" || impl == "COMPILE-ERR" {
 			return nil
@@ -679,6 +682,10 @@ func genC02exec(g *G) {
 	g.Exhaustive = false
 }
 
+// implOnlyWant: for the cases that are not sent to the model (NoModel), the answer prefix the property demands
+// of the implementation, by request.
+var implOnlyWant = map[string]string{}
+
 // genHandBundles: constructs the bundle generator does not produce.
 func genHandBundles(g *G) {
 	hand := []struct {
@@ -690,6 +697,30 @@ func genHandBundles(g *G) {
 		{"n.t", "{namespace n}\n/** @param x */\n{template .t}\n{if $x}/** c */{$x}{/if}{foreach $i in [1,2]}/** d\n */{$i}{/foreach}\n{/template}\n", map[string]interface{}{"x": "&"}},
 		{"n.t", "{namespace n autoescape=\"false\"}\n/** @param x */\n{template .t}\n{let $y}/** @param q */{$x}{/let}{$y}\n{/template}\n", map[string]interface{}{"x": "<"}},
 	}
+	// OUTSIDE THE MODEL (expected difference, implementation-only oracle): a {template} tag written inside a
+	// template body.  Go walks the nested body in the current frame with the mode "the tag's autoescape
+	// attribute, else the enclosing mode" and restores the enclosing mode afterwards (/repo a6ffafc);
+	// Model/Eval answers `error` for such a node, so these cases are NOT sent to the model: the oracle
+	// compares the implementation's output with what the property demands (`implOnlyWant`).
+	nested := []struct{ ns, inner, want string }{
+		{"", " autoescape=\"false\"", "A(&lt;)I(<)B(&lt;)"},
+		{"", "", "A(&lt;)I(&lt;)B(&lt;)"},
+		{" autoescape=\"false\"", " autoescape=\"true\"", "A(<)I(&lt;)B(<)"},
+		{" autoescape=\"false\"", "", "A(<)I(<)B(<)"},
+	}
+	for i, nc := range nested {
+		src := "{namespace n" + nc.ns + "}\n/** @param x */\n{template .t}\nA({$x}){template .inner" + nc.inner + "}I({$x}){/template}B({$x})\n{/template}\n"
+		fs := []srcFile{{"n.soy", src}}
+		tree, err := parseFilesMsgs(fs)
+		if err != nil {
+			g.Add(Case{Req: req("noparse", encSources(fs)), Class: "unparsable", Note: "nested#" + strconv.Itoa(i), NoModel: true})
+			continue
+		}
+		c := Case{Req: req("exec", encSources(fs), tree, "-", hxs("n.t"), mapTokens(map[string]interface{}{"x": "<"}), "nil", "-"), NT: true,
+			Class: "nested-template-tag(impl-only)", Note: "n.t nested#" + strconv.Itoa(i) + "\n" + src, NoModel: true}
+		implOnlyWant[c.Req] = "OK " + hx([]byte(nc.want)) + " "
+		g.Add(c)
+	}
 	for i, h := range hand {
 		fs := []srcFile{{"n.soy", h.src}}
 		tree, err := parseFilesMsgs(fs)
@@ -697,8 +728,10 @@ func genHandBundles(g *G) {
 			g.Add(Case{Req: req("noparse", encSources(fs)), Class: "unparsable", Note: "hand#" + strconv.Itoa(i), NoModel: true})
 			continue
 		}
-		g.Add(Case{Req: req("exec", encSources(fs), tree, "-", hxs(h.name), mapTokens(h.data), "nil", "-"), NT: true, Class: "hand",
-			Note: h.name + " hand#" + strconv.Itoa(i) + "\n" + h.src})
+		c := Case{Req: req("exec", encSources(fs), tree, "-", hxs(h.name), mapTokens(h.data), "nil", "-"), NT: true, Class: "hand",
+			Note: h.name + " hand#" + strconv.Itoa(i) + "\n" + h.src}
+		attachSpecExec(&c)
+		g.Add(c)
 	}
 }
 
